@@ -8,17 +8,17 @@ def sh(cmd, cwd=None, timeout=1800):
     return p.returncode, (p.stdout + p.stderr)[-3000:]
 if not os.path.isdir(WT):
     rc, o = sh(f"git -C /repo worktree add -q --detach {WT} HEAD"); assert rc == 0, o
-dirs = sorted(glob.glob("/tmp/seed/out/C*/[12]"))
+dirs = sorted(glob.glob(os.environ.get("SEED_GLOB", "/tmp/seed/out/C*/[12]")))
 only = sys.argv[1:]
 for d in dirs:
-    pid = d.split("/")[-2]
+    pid = [x for x in d.split("/") if re.fullmatch(r"C\d\d", x)][-1]
     if only and pid not in only: continue
     out = os.path.join(d, "confirm.json")
     if os.path.exists(out): continue
     res = {"dir": d}
     try:
         txt = open(os.path.join(d, "demo_path.txt")).read()
-        m = re.search(r"(\S*tests/seed_demo_\d\.rs)", txt)
+        m = re.search(r"(\S*tests/seed2?_demo(?:_\d)?\.rs)", txt)
         rel = m.group(1).lstrip("./")
         name = os.path.basename(rel)[:-3]
         cdir = os.path.dirname(os.path.dirname(rel))
